@@ -135,6 +135,62 @@ class SourceTable:
             seqs = [s for s in seqs if s]
         return res
 
+    # --------------------------------------------------------------- undeclared fields
+    def infer_field(self, cls, name):
+        """Type (as a shape string) guessed for a field that has no shape declaration -- e.g. one that a
+        changed version of the code introduces: from the right-hand sides of every `self.<name> = ...` in the
+        class hierarchy.  Numbers and None -> optional extended real, booleans -> bool, [] / {} -> containers of
+        anything, everything else -> any object."""
+        kinds = set()
+        for c in self.classes.values():
+            if cls in self.classes and c.name not in self.classes[cls].mro and cls not in c.mro:
+                continue
+            for n in ast.walk(c.node):
+                if isinstance(n, (ast.Assign, ast.AugAssign)):
+                    targets = n.targets if isinstance(n, ast.Assign) else [n.target]
+                    for t in targets:
+                        if isinstance(t, ast.Attribute) and t.attr == name and isinstance(t.value, ast.Name) \
+                                and t.value.id == 'self':
+                            kinds.add(self._rhs_kind(n.value) if isinstance(n, ast.Assign) else 'num')
+        if not kinds:
+            return None
+        if 'num' in kinds:
+            return 'ext?'
+        if kinds <= {'bool', 'none'} and 'bool' in kinds:
+            return 'bool?'
+        if kinds <= {'list', 'none'} and 'list' in kinds:
+            return 'list[any]'
+        if kinds <= {'dict', 'none'} and 'dict' in kinds:
+            return 'dict[any,any]'
+        if kinds <= {'str', 'none'} and 'str' in kinds:
+            return 'str'
+        return 'any'
+
+    @staticmethod
+    def _rhs_kind(v):
+        if isinstance(v, ast.Constant):
+            if isinstance(v.value, bool):
+                return 'bool'
+            if isinstance(v.value, (int, float)):
+                return 'num'
+            if v.value is None:
+                return 'none'
+            if isinstance(v.value, str):
+                return 'str'
+        if isinstance(v, ast.List):
+            return 'list'
+        if isinstance(v, ast.Dict):
+            return 'dict'
+        if isinstance(v, (ast.BinOp, ast.UnaryOp)):
+            return 'num'
+        if isinstance(v, ast.Call) and isinstance(v.func, ast.Name) and v.func.id in ('float', 'int', 'max', 'min', 'abs', 'len'):
+            return 'num'
+        if isinstance(v, ast.Attribute) and v.attr in ('now', '_now', 'time'):
+            return 'num'
+        if isinstance(v, (ast.Compare, ast.BoolOp)):
+            return 'bool'
+        return 'other'
+
     # --------------------------------------------------------------- resolution
     def is_subclass(self, c, base):
         ci = self.classes.get(c)
